@@ -14,8 +14,12 @@ LEVEL_TEXT = ("Theorems in coq/Props/C08.v about coq/Schema/Sem.v (impl-model of
               "assemblers, parameterised by a record of its confirmed defects) against coq/Schema/Conform.v (the "
               "strategy written as plain recursive functions): for every well-formed schema and every value of the "
               "type, with the defects switched off, the representation view is the canonical view of repr_spec, the "
-              "type-level and representation-level builders fed with the value's two trees both rebuild it, and the "
-              "dag-cbor bytes of the representation survive decode-through-the-builder and re-encode. For each "
+              "type-level and representation-level builders fed with the value's two trees (or with copies of its "
+              "two views) both rebuild it, and over any codec that canonicalises map order (decode . encode = "
+              "identity up to map-entry order; encoding independent of that order - C02's theorems for dag-cbor) "
+              "the encoded representation decodes through the representation builder to the same typed value "
+              "up to typed-map entry order and re-encodes to the same bytes (C08_bytes, resting on the invariance "
+              "of conformance and representation under map-entry permutation). For each "
               "defect a _refuted lemma exhibits a schema and value where the pinned model deviates. The model is "
               "tied to /repo by running the extracted model (pinned defects on) against bindnode with inferred Go "
               "types on random schemas composed of every strategy, reading both views with every read form.")
